@@ -30,8 +30,12 @@ NUM2STR = z3.Function("str.of_number", z3.RealSort(), z3.StringSort())
 class Logger(Model):
     clsname = "Logger"
 
+    fixed = None
+
     def call_method(self, interp, name, args, kwargs, node):
         if name == "isEnabledFor":
+            if self.fixed is not None:
+                return self.fixed
             return interp.ctx.bool("log.isEnabledFor", record=False)
         if name in ("debug", "info", "warn", "warning", "error", "exception", "critical"):
             # effect dropped; '%' formatting of the message is lazy in logging and never raises here
